@@ -310,6 +310,11 @@ def _oracle_slow(case, impl):
     return oracle_slowrefresh(case, impl) if case.startswith("slowhosts") else None
 
 
+def _oracle_dfiles(case, impl):
+    from props.c18 import oracle_dfiles
+    return oracle_dfiles(case, impl)
+
+
 SPEC = dict(
         lean_module="NV.Props.C12",
         level_text="Kernel-checked theorems about an executable model of ptrIP / isPrivateReverse / hostsResolve / Proxy.Resolve with the "
@@ -324,6 +329,8 @@ SPEC = dict(
                    "fail and the query falls through: kept as hypothesis).",
         areas=[dict(name="local", n_quick=40000, n_thorough=1200000, shards_thorough=8, oracle=oracle_local,
                     nontrivial=lambda c, i: c.startswith("resolve") and " up=0 " in (i + " ") or (c.startswith("ptrip") and "ip=none" not in i)),
+               # the hosts-file reader on whole files (comments, white space, CRLF, lines of up to 60 KB): tables = what the file lists
+               dict(name="dfiles", n_quick=1500, n_thorough=40000, shards_thorough=4, oracle=_oracle_dfiles, timeout=600),
                dict(name="hrefresh", n_quick=150, n_thorough=3000, shards_thorough=4, oracle=oracle_hrefresh),
                # a slow (first) load of the hosts file overlapped by a second query for a listed name: shared with C15
                dict(name="slowrefresh", n_quick=9, n_thorough=60, oracle=_oracle_slow, timeout=300)],
